@@ -107,6 +107,10 @@ impl Write for ScriptedWriter {
         if let Some((off, k)) = self.fail {
             if self.received.len() >= off {
                 self.failed = true;
+                if k == ErrorKind::WriteZero {
+                    self.refused = true;
+                    return Ok(0); // the sink is full
+                }
                 return Err(std::io::Error::new(k, "scripted failure"));
             }
         }
@@ -188,7 +192,9 @@ fn gen_steps(rng: &mut Rng, len: usize, style: u64, for_write: bool) -> Vec<Step
     steps
 }
 
-const KINDS: &[ErrorKind] = &[ErrorKind::Other, ErrorKind::UnexpectedEof, ErrorKind::BrokenPipe];
+/// `WriteZero` stands for a sink that is full at the offset: it answers `Ok(0)` there (`&mut [u8]`, `Cursor<&mut [u8]>`),
+/// which `write_all` turns into an error of that kind
+const KINDS: &[ErrorKind] = &[ErrorKind::Other, ErrorKind::UnexpectedEof, ErrorKind::BrokenPipe, ErrorKind::WriteZero];
 
 fn small_db(rng: &mut Rng, compression: CompressionConfig) -> Database {
     let mut db = Database::new(DatabaseConfig {
@@ -362,9 +368,16 @@ pub fn run_read(ctx: &mut Ctx) {
 pub fn run_write(ctx: &mut Ctx) {
     let mut rng = ctx.rng.fork();
     let ndb = if ctx.thorough { 20 } else { 3 };
-    for _ in 0..ndb {
-        let db = small_db(&mut rng, CompressionConfig::None);
+    for di in 0..ndb + 1 {
+        // the last database has a payload of exactly 1 MiB (a block-size boundary of the HMAC block stream)
+        let big = di == ndb;
         let key = DatabaseKey::new().with_password("pw");
+        let db = if big {
+            let comp = crate::keyop::ref_composite(&Some("pw".to_string()), &None).unwrap();
+            crate::saveop::big_db(&mut rng, 1 << 20, &key, &comp)
+        } else {
+            small_db(&mut rng, CompressionConfig::None)
+        };
         // reference run: a sink that accepts everything; its write calls are the segments
         let mut w0 = ScriptedWriter::new(&[], None);
         db.save(&mut w0, key.clone()).unwrap();
@@ -375,10 +388,21 @@ pub fn run_write(ctx: &mut Ctx) {
         assert_eq!(w1.received.len(), total, "save length must be deterministic without compression");
 
         let mut scheds: Vec<(Vec<Step>, Option<(usize, ErrorKind)>)> = Vec::new();
+        if big {
+            scheds.push((vec![], None));
+            scheds.push(((0..total / 65536 + 3).map(|_| Step::Cap(65535)).collect(), None));
+            scheds.push((vec![], Some((total - 1, ErrorKind::Other))));
+        }
         for style in 0..=19u64 {
+            if big {
+                break;
+            }
             scheds.push((gen_steps(&mut rng, total, style, true), None));
         }
         for k in [32usize, 33, 64, 100] {
+            if big {
+                break;
+            }
             scheds.push((gen_steps(&mut rng, total, 0, true).into_iter().chain((0..total / k + 3).map(|_| Step::Cap(k - 1))).collect(), None));
         }
         let offs: Vec<usize> = if ctx.thorough { (0..=total + 1).collect() } else {
@@ -389,6 +413,9 @@ pub fn run_write(ctx: &mut Ctx) {
             o.sort(); o.dedup(); o
         };
         for off in offs {
+            if big {
+                break;
+            }
             let style = *rng.pick(&[0u64, 0, 1, 3, 17, 19]);
             let kind = *rng.pick(KINDS);
             scheds.push((gen_steps(&mut rng, total, style, true), Some((off, kind))));
